@@ -168,6 +168,7 @@ PROPS = {
         ]
 },
     "C14": {
+        "lean_modules": ["InTotoModel.Props.C14", "InTotoModel.Props.Spec"],
         "claim": "Panic-freedom of the modelled code is proved in Lean for every input: the whole verification pipeline over arbitrary link directories (including the summary's table lookups), rule application on arbitrary paths, block verification, PAE unpacking and KeyId::prefix; the inventory of every unwrap/expect/panic!/assert!/index site in the crate is regenerated from the source on every run and must be fully classified. Library code (serde_json, ring, derp, pem, glob, chrono, walkdir) is fuzzed only: byte-level mutations of valid documents and raw bytes into every parser and key importer, nesting beyond the recursion limit, extreme numbers, and verification over link directories seeded with hostile files.",
         "level_note": "Partial by nature: a proof covers the repo's own slicing/indexing/unwrap sites through their models; absence of panics, aborts, stack overflow and non-termination in the libraries is sampled, not proved. The recursion into sub-layouts is one directory level per delegation: c14_recursion_ends_with_the_directory_tree proves that the model's result no longer depends on the fuel once it exceeds the depth of the link directory plus one (in the real file system the depth is bounded by PATH_MAX; symbolic-link cycles are exercised on the implementation in child processes).",
         "technique": "Lean 4 no-panic theorems about the executable models + panic-site inventory translated from the Rust source on every run; fuzz streams as supporting evidence for library code",
